@@ -12,3 +12,6 @@ func VerifPollRetries(m Manager) { m.(*manager).pollRetries() }
 // VerifClosed reports whether Close has been called on a manager made by NewManager (Close itself
 // returns only after every worker left its current execution).
 func VerifClosed(m Manager) bool { return m.(*manager).closed.Load() }
+
+// VerifConfig returns the configuration a manager made by NewManager runs with (after applyDefaults).
+func VerifConfig(m Manager) Config { return m.(*manager).config }
